@@ -141,5 +141,5 @@ Print Assumptions C02_no_stuck.
 Example C02_example :
   snd (run (reader_init {| prebuf := [1;2]; data := [3;4;5;6;7;8;9;10;11;12]; events := [Deliver 1; Interrupt; Deliver 3] |})
            [OSetChunk 2; ORequest 3; OAdvance 3; OSetMark; ORequest 6; OAdvance 5; ORequestMore; OMark; OPosition; OBuf])
-  = [VUnit; VBytes [1;2;3]; VUnit; VUnit; VBytes [4;5;6;7;8;9]; VUnit; VBool true; VNum 3; VNum 8; VBytes [9;10;11]].
+  = [VUnit; VBytes [1;2;3]; VUnit; VUnit; VBytes [4;5;6;7;8;9;10]; VUnit; VBool true; VNum 3; VNum 8; VBytes [9;10;11;12]].
 Proof. vm_compute. reflexivity. Qed.
